@@ -13,6 +13,10 @@ checks = {
          "TLC model checking of the listener cascade vs bottom-up expansion + API replay + per-tree finals judged by TLC", "4-C04"),
  "C05": (MC, "The counter laws are model-checked for all pairs/triples at 4 and 8 bits (TLC) and proved for all operands at 32/64 bits (Apalache); TLC's 8-bit table is compared pair by pair with the width-narrowed real counts package; Scan is checked with tiny capacities; every behaviour of saturating families is replayed state for state into the width-narrowed real code (caps 255/65535); full-width bombs are scanned by the binary and judged with BigNat arithmetic in TLA+ (value = capacity, infinity sign, 30 '!'), with the number of tree steps equal to the number of distinct trees.",
          "TLC all-pairs + Apalache all-integers counter laws, width-narrowed copy replayed against Scan, BigNat-judged full-width bombs", "4-C05"),
+ "C06": (MC, "Refs.tla gives the coded filter fold (nil start, union / intersection-with-inverse), the coded prefix test and the declarative last-matching-rule / component-boundary / full-match definitions; TLC checks them equal on all option sequences, all prefix x name pairs and all refgroup forests in bounds, exports every (prefix, name) and (regexp AST, string) question, which is put to the real git.PrefixFilter / git.RegexpFilter; random CLI scenarios (every option kind and spelling, gitconfig refgroups, ROOTs) are run with --show-refs and judged by TLC (RefsJudge).",
+         "TLC model checking of the selection fold/matchers + exported questions put to the real filters + TLC-judged --show-refs runs", "4-C06"),
+ "C07": (MC, "TLC checks coded collectSymbols = declarative Tally on all parent-closed refgroup forests in bounds (own-filter outcomes none/pass/fail, both sibling orders); CLI scenarios with nested/implicit/augmented/overlapping groups are run in three formats: JSON v1 tallies judged by TLC (RefsJudge), table rows and JSON v2 items compared with them; nesting chains to depth 24.",
+         "TLC model checking of collectSymbols vs Tally + TLC-judged tallies of CLI runs in three formats", "4-C07"),
  "C08": (MC, "Scan+PathRes: witness attains the maximum and its description resolves in a TLA+ model of git rev-parse, for all small graphs/root kinds/styles/orders; on the real binary every printed description is resolved by git rev-parse itself and judged by TLC.",
          "TLC model checking of PathRes + API replay comparing rendered descriptions + git rev-parse as judge on binary runs", "4-C08"),
  "C09": (MC, "Order is the only nondeterminism of Scan: TLC enumerates every permutation; every one is replayed into sizes.Graph and all orders of one graph must agree with each other and with the oracle.",
@@ -21,7 +25,6 @@ checks = {
          "TLC model checking of the meter + TLC trace validation of timing-fuzzed real meter runs + TLC-judged CLI progress counts", "4-C18"),
 }
 pending = {
- "C06": "check under construction in this session", "C07": "check under construction in this session",
  "C10": "check under construction in this session", "C11": "check under construction in this session",
  "C12": "check under construction in this session", "C13": "check under construction in this session",
  "C14": "check under construction in this session", "C15": "check under construction in this session",
